@@ -17,6 +17,9 @@ seam checks through the trace hook (they localise a failure and tie the stage mo
      their positions (keys seam-select, seam-columns), and the Lean precondition `rawPreconditionB` itself (mkInst succeeds,
      trusted het genotypes, biallelic truth, every read an error-free copy) holds on the traced solver input with the
      generator's truth (`c02.errfree`, key seam-errfree)
+  Aw weights (round 10): every allele observation of every candidate read has the weight the documented behaviour implies — 30 with a
+     reference, the base quality without (key seam-quality; in-process reader: reader-quality); base-quality profiles are a routine
+     dimension of the generator (harness/gen/c02_quals.py); Props.C02.zero_weight_link_witness is the proved reason
   A0 reads of a sample (round 8): every candidate read of sample s in the trace is, by the generator's bookkeeping per input
      file, a read of s (key seam-read-sample); in-process: the real MultiBamReader.fetch(contig, sample) of every run's files
      == the generator's reads of that sample (key fetch-read-sample) == Lean `C02Bam.fetch` (op c02.fetch;
@@ -33,13 +36,16 @@ from harness.gen import sim
 from harness.gen import c02_forms as FORMS
 from harness.gen import c02_layout as LAYOUT
 from harness.gen import c02_contigs as CONTIGS
+from harness.gen import c02_quals as QUALS
 
 RULE = ("generated phasing scenarios with ground truth: 1-2 contigs (plus cases with 2-5 contigs related by length/sequence: equal length, "
         "identical, lengths differing by one, shared prefix/suffix, rotated, near copies; several contig-name styles), 3-14 well separated variants (SNV, MNP, "
         "insertion, deletion), 1-3 samples with own true haplotypes, error-free single and paired reads, depth 2-40 "
         "(above the internal cap of 15), input genotypes in every textual form (0/1, 1/0, 0|1, 1|0 with/without PS, HP values, "
         "mixed within a phase set), options --tag PS/HP, --only-snvs, --sample subsets, --ignore-read-groups "
-        "(single sample); alignment-file layouts (1-6 files: per-sample files, several files per sample, mixed files; 1-3 read "
+        "(single sample); base-quality profiles (constant 30, per-base mixtures of 0/2/30/93, all-Q0 long reads, Q0 at variant columns only, Q0 only "
+        "on the templates bridging two groups of variants, no qualities '*' for all or half of the reads), SNV-only scenarios also with "
+        "--no-reference (positive qualities); alignment-file layouts (1-6 files: per-sample files, several files per sample, mixed files; 1-3 read "
         "groups per file and sample; read-group IDs numbered per file so that one ID names different samples in different "
         "files, shared pool, unique, legacy; header-only decoy @RG lines; read names unique or numbered per file), one CLI "
         "process or 2-3 runs in one interpreter, plus in-process MultiBamReader.fetch queries per sample and one in-process PhasedInputReader reused for "
@@ -224,6 +230,19 @@ def run(ctx):
                             cig = cig + [(5, r2.randrange(1, 30))]
                         r["cigar"] = cig
                 ctx.dist("clips", "soft/hard clipped reads")
+            # ---- base qualities (round 10; own random stream, the scenarios themselves are unchanged): the reads stay error-free,
+            # only their base qualities vary (all-'!' long reads, Q0 at variant columns, Q0 on the only reads bridging two groups
+            # of variants, no qualities at all, mixtures) — and SNV-only scenarios also run WITHOUT a reference, where the weight
+            # of an observation is the base quality (only positive qualities there: a weight-0 observation carries no phase
+            # information by design, Props.C02.zero_weight_link_witness)
+            r5 = random.Random(case["scenario_seed"] ^ 0xC02A)
+            no_ref = case["no_reference"] if "no_reference" in case else (
+                tuple(kinds) == ("snv",) and not repeats and not case.get("contigs") and r5.random() < 0.35)
+            qprof = case.get("qual_profile") or QUALS.gen_profile(r5, positive_only=no_ref)
+            qinfo = QUALS.apply(r5, sc, qprof)
+            ctx.dist("base_qualities", qprof)
+            ctx.dist("reference_option", "--no-reference" if no_ref else "--reference")
+            ctx.dist("reads_with_q0_at_a_variant", "some" if qinfo["reads_with_q0_at_variant"] else "none")
             d = os.path.join(wd, "run")
             shutil.rmtree(d, ignore_errors=True)
             # optionally hand the reads over as TWO alignment files that reuse the same read names (two sequencing
@@ -243,6 +262,7 @@ def run(ctx):
                     r["name"] = nm
                     file_of[id(r)] = f
             fa, bam, vcf = sc.write(d)
+            QUALS.strip_missing(bam)
             prephased = r2.random() < 0.3
             if prephased:
                 # the input VCF already carries (arbitrary, mostly WRONG) phase information, as after an earlier run or
@@ -289,6 +309,7 @@ def run(ctx):
                 for f in (0, 1):
                     bp = os.path.join(d, f"in{f}.bam")
                     sim.write_bam(bp, sc.contigs, [r for r in sc.reads if file_of[id(r)] == f], sc.read_groups())
+                    QUALS.strip_missing(bp)
                     bams.append(bp)
             tag = r2.choice(["PS", "HP"])
             opts = ["--tag", tag]
@@ -320,6 +341,8 @@ def run(ctx):
                     files, place, info = LAYOUT.gen_layout(r4, sc.samples, reads0)
                     dk = os.path.join(d, f"L{k}")
                     paths = LAYOUT.write_layout(dk, sc.contigs, reads0, files, place)
+                    for p_ in paths:
+                        QUALS.strip_missing(p_)
                     runs.append({"dir": dk, "bams": paths, "file_of": {id(r): pl[0] for r, pl in zip(sc.reads, place)},
                                  "name_of": {id(r): pl[2] for r, pl in zip(sc.reads, place)},
                                  "rg_of": {id(r): pl[1] for r, pl in zip(sc.reads, place)}, "headers": info["files"], "layout": info})
@@ -327,7 +350,7 @@ def run(ctx):
                     opts += ["--ignore-read-groups"]
             for run_ in runs:
                 os.makedirs(run_["dir"], exist_ok=True)
-                run_["args"] = ["phase", "-r", fa, "-o", os.path.join(run_["dir"], "out.vcf")] + opts + [vcf] + run_["bams"]
+                run_["args"] = (["phase", "--no-reference"] if no_ref else ["phase", "-r", fa]) + ["-o", os.path.join(run_["dir"], "out.vcf")] + opts + [vcf] + run_["bams"]
                 run_["trace"] = os.path.join(run_["dir"], "trace.jsonl")
                 ctx.dist("alignment_files", len(run_["bams"]))
                 if run_["layout"]:
@@ -343,7 +366,8 @@ def run(ctx):
             for ri, (run_, (rc, err, trace)) in enumerate(zip(runs, results)):
               file_of, name_of, args = run_["file_of"], run_["name_of"], run_["args"]
               ctx.evaluated()
-              desc = {**case, "args": args[1:], "samples": sc.samples, "kinds": list(kinds), "deep": deep, "gt_forms": gt_forms}
+              desc = {**case, "args": args[1:], "samples": sc.samples, "kinds": list(kinds), "deep": deep, "gt_forms": gt_forms,
+                      "qual_profile": qprof, "qualities": qinfo, "no_reference": no_ref}
               if run_["layout"]:
                   desc["layout"] = run_["layout"]
               if contig_info:
@@ -384,8 +408,10 @@ def run(ctx):
                   ctx.nontrivial(case["scenario_seed"])
               # ---- seam checks on the trace
               truth_of_read = {}
+              alns_of = {}
               for r in sc.reads:
                   truth_of_read.setdefault((file_of.get(id(r), 0), name_of.get(id(r), r["name"])), (r["sample"], r["hap"]))
+                  alns_of.setdefault((file_of.get(id(r), 0), name_of.get(id(r), r["name"]), r["chrom"]), []).append(r)
               for tr in trace:
                   chrom = tr["chrom"] if "chrom" in tr else tr["chromosome"]
                   posidx = {v.pos: i for i, v in enumerate(sc.variants[chrom])}
@@ -401,6 +427,22 @@ def run(ctx):
                           if hv[posidx[pos]] != al:
                               ctx.fail(f"seam A: read {rd['name']} (error-free copy of haplotype {h} of {s}) was given allele {al} "
                                        f"at {chrom}:{pos}, its haplotype carries {hv[posidx[pos]]}", desc, key="seam-allele")
+                  # seam A, weights (round 10): the weight of every allele observation of every candidate read is what the
+                  # documented behaviour implies — with a reference the constant 30 of the re-alignment, without one the base
+                  # quality of the base aligned to the variant (30 when the alignment has no qualities).  A weight-0 observation
+                  # would link variants for `find_components` without carrying phase information (zero_weight_link_witness)
+                  bad_q = None
+                  for s, cand in tr["candidates"].items():
+                      for r in cand["reads"]:
+                          for pos, al, q in r["variants"]:
+                              want = {QUALS.expected_weight(a, pos, not no_ref) for a in alns_of.get((r["source_id"], r["name"], chrom), [])} - {None}
+                              if want and q not in want and bad_q is None:
+                                  bad_q = (r["name"], r["source_id"], pos, q, sorted(want))
+                  if bad_q is not None:
+                      ctx.fail(f"seam A (weights): read {bad_q[0]!r} of input file {bad_q[1]} observes the variant at {chrom}:{bad_q[2]} with weight "
+                               f"{bad_q[3]}; " + ("with a reference every re-aligned allele has the weight 30" if not no_ref else
+                                                 "without a reference the weight is the base quality at the variant")
+                               + f" (expected {bad_q[4]}); base-quality profile {qprof}", desc, key="seam-quality")
                   for s, cand in tr["candidates"].items():
                       # seam A0 (read -> sample): a read belongs to the sample named by the @RG line of ITS OWN file whose ID is
                       # the read's RG tag; the generator knows whose haplotype every read of every file copies
@@ -467,7 +509,7 @@ def run(ctx):
             # reads of that sample, per file (oracle), == Lean `C02Bam.fetch` (Props.C02.fetched_reads_are_the_samples /
             # fetch_none_iff)
             files, place, info = LAYOUT.gen_layout(r4, sc.samples, reads0)
-            extra = {"bams": LAYOUT.write_layout(os.path.join(d, "LX"), sc.contigs, reads0, files, place),
+            extra = {"bams": [QUALS.strip_missing(p_) or p_ for p_ in LAYOUT.write_layout(os.path.join(d, "LX"), sc.contigs, reads0, files, place)],
                      "file_of": {id(r): pl[0] for r, pl in zip(sc.reads, place)}, "name_of": {id(r): pl[2] for r, pl in zip(sc.reads, place)},
                      "rg_of": {id(r): pl[1] for r, pl in zip(sc.reads, place)}, "headers": info["files"], "layout": info}
             fetch_stream(ctx, sc, [extra] + runs, case, fetch_reqs, fetch_meta)
@@ -592,6 +634,10 @@ def reader_stream(ctx, sc, runs, fa, vcf, case):
                 readset, _ = pir.read(c, tables[c].variants, s, read_vcf=False)
                 posidx = {v.pos: i for i, v in enumerate(sc.variants[c])}
                 got = sorted((rd.source_id, rd.name, tuple((v.position, v.allele) for v in rd)) for rd in readset)
+                badq = [(rd.name, v.position, v.quality) for rd in readset for v in rd if v.quality != 30]
+                if badq:
+                    ctx.fail(f"query {qi + 1} ({c}, {s}): with a reference every re-aligned allele has the weight 30, read {badq[0][0]!r} "
+                             f"observes {c}:{badq[0][1]} with weight {badq[0][2]} ({len(badq)} such observations)", desc, key="reader-quality")
                 if (c, s) in seen and seen[(c, s)] != got:
                     ctx.fail(f"query {qi + 1} ({c}, {s}) repeated on the same reader gave other reads/alleles than the first time "
                              f"({len(seen[(c, s)])} vs {len(got)} reads; first difference: "
